@@ -138,6 +138,14 @@ def run(ctx):
         for j in range(rng.randint(1, 3)):
             leaf = rng.choice(leaves)
             key = leaf if rng.random() < 0.5 else mutate(rng, leaf)
+            foreign = None
+            if rng.random() < 0.12:
+                # a setting that exists for another detector type only (first used there, in this very process)
+                k2 = rng.choice([x for x in ("ccd", "cmos", "mkid", "apd") if x != kind])
+                cand = [l for l in settings.leaves_of(k2) if l not in leaves and l[0] == "detector"]
+                if cand:
+                    leaf = key = rng.choice(cand)
+                    foreign = k2
             if key == DICT_ARG:
                 key = leaf
             if key != leaf and [c.lstrip("_") for c in key] == list(leaf):
@@ -146,7 +154,9 @@ def run(ctx):
             f = leaf[-1]
             if path == "sweep" and f in ("row", "col"):
                 path = "override"
-            if leaf[0] == "detector":
+            if foreign:
+                op = {"path": path, "key": key, "val": settings.canon(2.0)}
+            elif leaf[0] == "detector":
                 if f in SAFE_TEXT and rng.random() < 0.5:
                     op = {"path": path, "key": key, "text": rng.choice(SAFE_TEXT[f])}
                 elif f in SAFE_NUM:
@@ -161,6 +171,10 @@ def run(ctx):
             else:
                 op = {"path": path, "key": key, "text": rng.choice(TEXTS)} if rng.random() < 0.7 else \
                      {"path": path, "key": key, "val": settings.canon(rng.choice([3, 2.5, [1, 2], "zz", 0, 0.0, False, [0, 5], [0.0, 20.0], [1, 0, 2], [[0, 1], [2, 0]], [False, True], (0, 3)]))}
+            if foreign:
+                op["elsewhere"] = foreign
+                if "text" in op:
+                    op.pop("text"); op["val"] = settings.canon(2.0)
             ops.append(op)
             if path == "sweep":
                 break
